@@ -90,6 +90,29 @@ def judge_sym_result(ctx, x, qtn, q, sig0, desc, assign):
         jm = ~zmask
     else:
         sc, jm = scale, None
+    # the default optimizer's scale must cover the tensor (C03's non-saturation clause restated here: a scale that
+    # collapses - e.g. from a signed instead of an absolute maximum - keeps every value finite and on the grid while
+    # the weight is lost): the largest |element| of every scale group is at most qmax x scale, up to rounding
+    try:
+        if sig0.get("site") != "quantize_weight":
+            raise StopIteration  # activations are quantized with scales calibrated on other batches: saturation is legitimate
+        qmax = 127.0  # the symmetric weight optimizer maps absmax to 127 for every 8-bit qtype (finding C03-F2)
+        Sx = S.abs().expand_as(x) if scale.ndim else S.abs() * torch.ones_like(x, dtype=F64)
+        Xa = x.to(F64).abs()
+        lim = qmax * (Sx + 2 * num.ulp(Sx, wd)) + num.ulp(Xa, wd)
+        over = (Xa > lim) & (Sx >= num.smallest_normal(wd)) if False else (Xa > lim)
+        # scales at the floor (all-zero or underflowing ranges) are the documented exception: the range itself is below it
+        floor = float(torch.finfo(wd).smallest_normal * torch.finfo(wd).eps)
+        over = over & ~(Sx <= 2 * floor) | (over & (Sx <= 2 * floor) & (Xa > 127.0 * 4 * floor))
+        ctx.count("saturation_checks")
+        if over.any():
+            i = int(torch.nonzero(over.reshape(-1))[0])
+            ctx.violation(dict(sig0, kind="default_scale_saturates_its_own_tensor", family="float8" if "float8" in qtn else "int8"),
+                          dict(x=float(x.reshape(-1)[i]), scale=float(Sx.reshape(-1)[i]), desc=desc))
+    except StopIteration:
+        pass
+    except Exception as e:  # noqa
+        ctx.count("saturation_check_errors")
     stats = {}
     fails = oracles.check_symmetric(x, STORAGE[qtn], sc, q, stats=stats, judge_mask=jm)
     ctx.count("elements_judged", stats.get("judged", 0))
